@@ -37,6 +37,24 @@ def bool_alts(cx, b):
     return out
 
 
+def angle_interval_new_shape(cx, b):
+    """shared with C11 (arc boxes are filtered through AngleInterval::new(angle0, angle).contains): a full turn stays a full turn"""
+    # start normalised through angle_to_2pi of start (extent >= 0) resp. start + angle (extent < 0)
+    lits = b.aggregates('common::angles::AngleInterval')
+    okn = len(lits) == 2
+    for s in lits:
+        d = cx.aggval(s)
+        neg = cx.guarded(b, s.bb, '(lt (param angle) 0.0)', True) is not None
+        pos = cx.guarded(b, s.bb, '(lt (param angle) 0.0)', False) is not None
+        if neg:
+            okn = okn and match('(agg * (start (call *angle_to_2pi (add (param angle) (param start)))) (angle (call f64::min (call f64::abs (param angle)) TAU)))', d) is not None
+        elif pos:
+            okn = okn and match('(agg * (start (call *angle_to_2pi (param start))) (angle (call f64::min (param angle) TAU)))', d) is not None
+        else:
+            okn = False
+    cx.ob('EXPR', 'AngleInterval::new:shape', okn, 'a negative extent is the same set swept backwards: start := angle_to_2pi(start + angle), extent := min(|angle|, 2pi); otherwise angle_to_2pi(start), min(angle, 2pi)', where=b.file)
+
+
 def run(cx):
     summ = {}
     # ---------------------------------------------------------------- RANGE
@@ -86,20 +104,7 @@ def run(cx):
         for f in ('start', 'angle'):
             cx.ob('RANGE', f'AngleInterval::new:{f}', ok_shape and los[f][0] >= -EPS and los[f][1] <= TAU + EPS,
                   f'AngleInterval::new stores {f} in [0, 2pi] on every path', where=b.file, found=f'[{los[f][0]:.6g}, {los[f][1]:.6g}]')
-        # start normalised through angle_to_2pi of start (extent >= 0) resp. start + angle (extent < 0)
-        lits = b.aggregates('common::angles::AngleInterval')
-        okn = len(lits) == 2
-        for s in lits:
-            d = cx.aggval(s)
-            neg = cx.guarded(b, s.bb, '(lt (param angle) 0.0)', True) is not None
-            pos = cx.guarded(b, s.bb, '(lt (param angle) 0.0)', False) is not None
-            if neg:
-                okn = okn and match('(agg * (start (call *angle_to_2pi (add (param angle) (param start)))) (angle (call f64::min (call f64::abs (param angle)) TAU)))', d) is not None
-            elif pos:
-                okn = okn and match('(agg * (start (call *angle_to_2pi (param start))) (angle (call f64::min (param angle) TAU)))', d) is not None
-            else:
-                okn = False
-        cx.ob('EXPR', 'AngleInterval::new:shape', okn, 'a negative extent is the same set swept backwards: start := angle_to_2pi(start + angle), extent := min(|angle|, 2pi); otherwise angle_to_2pi(start), min(angle, 2pi)', where=b.file)
+        angle_interval_new_shape(cx, b)
     E.enc(cx, 'common::angles::AngleInterval', ('start', 'angle'), constructors=['common::angles::AngleInterval::new'])
     b = cx.fn('common::angles::AngleInterval::intersects')
     if b:
@@ -185,9 +190,15 @@ def run(cx):
         ok = len(somes) == 1 and len(nones) == 1
         if ok:
             s, d = somes[0]
-            ok = match('(agg * (0 (call *Interval::new (call f64::max (field min (param self)) (field min (param other))) (call f64::min (field max (param self)) (field max (param other))))))', d) is not None
-            ok = ok and cx.guarded(b, s.bb, '(call *Interval::overlaps (param self) (param other))', True) is not None and \
+            LO = '(call f64::max (field min (param self)) (field min (param other)))'
+            HI = '(call f64::min (field max (param self)) (field max (param other)))'
+            shape = match(f'(agg * (0 (call *Interval::new {LO} {HI})))', d) is not None or match(f'(agg * (0 (call *Interval::new_unchecked {LO} {HI})))', d) is not None or \
+                match(f'(agg * (0 (agg *Interval (min {LO}) (max {HI}))))', d) is not None
+            # two equivalent tests: the overlap predicate, or the closed comparison of the candidate bounds (lo <= hi)
+            by_pred = cx.guarded(b, s.bb, '(call *Interval::overlaps (param self) (param other))', True) is not None and \
                 cx.guarded(b, nones[0][0].bb, '(call *Interval::overlaps (param self) (param other))', False) is not None
+            by_bounds = cx.guarded(b, s.bb, f'(le {LO} {HI})', True) is not None and cx.guarded(b, nones[0][0].bb, f'(le {LO} {HI})', False) is not None
+            ok = shape and (by_pred or by_bounds)
         cx.ob('EXPR', 'Interval::intersection', ok, 'intersection = [max(min,min\'), min(max,max\')] exactly when the intervals overlap (a commutative expression contained in both operands)', where=b.file)
     for fn, pat, what in ((f'{IV}::clamp', '(call f64::max (call f64::min (param x) (field max (param self))) (field min (param self)))', 'clamp(x) = max(min(x, max), min)'),
                           (f'{IV}::length', '(sub (field max (param self)) (field min (param self)))', 'length = max - min')):
